@@ -22,7 +22,7 @@ pub fn spec() -> Spec {
         assumptions: &["family 'dsym' takes presentations from fundamental_group as a supply of inputs only"],
         bounds: |t| json!({"k_for_2_generators": t.pick(5, 6), "k_for_3_generators": t.pick(4, 5), "k_for_4_generators": t.pick(3, 4), "k_for_1_generator": 8,
             "exhaustive_2gens": {"relator_len": t.pick(4, 5), "max_relators": 3, "k": t.pick(5, 6)}, "exhaustive_3gens": {"relator_len": 3, "max_relators": t.pick(3, 4), "k": t.pick(4, 5)},
-            "dsym_dsets_max_size": t.pick(6, 7), "dsym_index": t.pick(4, 5)}),
+            "dsym_dsets_max_size": t.pick(6, 7), "dsym_index": t.pick(4, 5), "deep_family": "24 named infinite and finite groups (triangle groups, PSL(2,Z), F2, Z^2, Z^3, Klein bottle, BS(1,2), B3, Heisenberg, free products, surface group, [4,3,4], ...) against the reference backtracking search at index 4-16 [6-18] depending on the group"}),
     }
 }
 
@@ -81,6 +81,100 @@ pub fn check_case(ctx: &mut Ctx, family: &str, ng: usize, rels: &[Word], k: usiz
     }
 }
 
+/// deep family: the crate's list against the independent backtracking reference (R5b) at indices the
+/// homomorphism counter cannot reach; the two lists must be the same set of actions up to equivalence
+fn check_deep(ctx: &mut Ctx, name: &str, ng: usize, rels: &[Word], k: usize) {
+    let case = json!({"family": "deep", "group": name, "ng": ng, "rels": rels, "k": k});
+    ctx.announce(&case);
+    let weight = 1000 + (ng * 10 + k) as u64;
+    let reference = match low_index_ref(ng, rels, k, 30_000_000) {
+        Some(r) => r,
+        None => {
+            ctx.add("deep_reference_gave_up", 1);
+            return;
+        }
+    };
+    ctx.count(reference.len() >= 2);
+    ctx.ops(1);
+    let rels_fw: Vec<FreeWord> = rels.iter().map(|r| fw(r)).collect();
+    let tables = match ctx.guard(|| coset_tables(ng, &rels_fw, k).collect::<Vec<_>>()) {
+        Ok(t) => t,
+        Err(m) => {
+            ctx.violation("panic:coset_tables", case, m, weight);
+            return;
+        }
+    };
+    let mut forms: BTreeSet<Vec<usize>> = BTreeSet::new();
+    for t in &tables {
+        if t.len() < 1 || t.len() > k {
+            ctx.violation("too-many-rows", case.clone(), format!("a table has {} rows, bound is {}", t.len(), k), weight);
+            return;
+        }
+        let a = match table_to_action(t, ng) {
+            Ok(a) => a,
+            Err(e) => {
+                ctx.violation("incomplete-table", case.clone(), e, weight);
+                return;
+            }
+        };
+        if let Some(why) = check_action(&a, rels, &[]) {
+            ctx.violation("invalid-table", case.clone(), why, weight);
+            return;
+        }
+        if !forms.insert(a.canonical_code()) {
+            ctx.violation("duplicate-class", case.clone(), format!("two of the {} tables are equivalent as actions ({} rows)", tables.len(), a.len()), weight);
+            return;
+        }
+    }
+    let exp: BTreeSet<Vec<usize>> = reference.iter().map(|a| a.canonical_code()).collect();
+    ctx.add("deep_classes_compared", exp.len() as i64);
+    ctx.max("deep_largest_list", exp.len() as i64);
+    if forms != exp {
+        let missing = exp.difference(&forms).count();
+        let extra = forms.difference(&exp).count();
+        let per = |set: &BTreeSet<Vec<usize>>| -> Vec<usize> {
+            let mut by = vec![0usize; k + 1];
+            for c in set {
+                by[c.len() / (2 * ng)] += 1;
+            }
+            by[1..].to_vec()
+        };
+        ctx.violation("class-count", case, format!("tables per row count {:?}, classes per index {:?} (reference backtracking search); {} classes missing, {} tables not in the reference", per(&forms), per(&exp), missing, extra), weight);
+    }
+}
+
+fn deep_groups(tier: Tier) -> Vec<(&'static str, usize, Vec<Word>, usize)> {
+    let c = |a: isize, b: isize| -> Word { vec![a, b, -a, -b] };
+    let pw = |w: &[isize], n: usize| -> Word { (0..n).flat_map(|_| w.iter().cloned()).collect() };
+    let t = |_q: usize, th: usize| tier.pick(th, th + 2);
+    vec![
+        ("(2,3,7) rotations", 2, vec![pw(&[1], 2), pw(&[2], 3), pw(&[1, 2], 7)], t(10, 15)),
+        ("(3,6,4) rotations", 2, vec![pw(&[1], 3), pw(&[2], 6), pw(&[1, 2], 4)], t(7, 9)),
+        ("(2,4,5) rotations", 2, vec![pw(&[1], 2), pw(&[2], 4), pw(&[1, 2], 5)], t(8, 11)),
+        ("(3,3,4) rotations", 2, vec![pw(&[1], 3), pw(&[2], 3), pw(&[1, 2], 4)], t(8, 10)),
+        ("(2,3,6) rotations", 2, vec![pw(&[1], 2), pw(&[2], 3), pw(&[1, 2], 6)], t(9, 12)),
+        ("(2,3,7) reflections", 3, vec![pw(&[1], 2), pw(&[2], 2), pw(&[3], 2), pw(&[1, 2], 2), pw(&[2, 3], 3), pw(&[1, 3], 7)], t(9, 14)),
+        ("(2,4,4) reflections", 3, vec![pw(&[1], 2), pw(&[2], 2), pw(&[3], 2), pw(&[1, 2], 2), pw(&[2, 3], 4), pw(&[1, 3], 4)], t(7, 9)),
+        ("(3,3,3) reflections", 3, vec![pw(&[1], 2), pw(&[2], 2), pw(&[3], 2), pw(&[1, 2], 3), pw(&[2, 3], 3), pw(&[1, 3], 3)], t(8, 10)),
+        ("(2,3,6) reflections", 3, vec![pw(&[1], 2), pw(&[2], 2), pw(&[3], 2), pw(&[1, 2], 2), pw(&[2, 3], 3), pw(&[1, 3], 6)], t(8, 10)),
+        ("PSL(2,Z)", 2, vec![pw(&[1], 2), pw(&[2], 3)], t(10, 12)),
+        ("F2", 2, vec![], t(5, 6)),
+        ("Z^2", 2, vec![c(1, 2)], t(10, 16)),
+        ("Z^3", 3, vec![c(1, 2), c(1, 3), c(2, 3)], t(6, 8)),
+        ("Klein bottle", 2, vec![vec![1, 2, 1, -2]], t(8, 11)),
+        ("BS(1,2)", 2, vec![vec![2, 1, -2, -1, -1]], t(8, 11)),
+        ("braid B3", 2, vec![vec![1, 2, 1, -2, -1, -2]], t(7, 9)),
+        ("Heisenberg", 2, vec![vec![1, 1, 2, -1, -2, -1, 2, 1, -2, -1], vec![2, 1, 2, -1, -2, -2, 2, 1, -2, -1]], t(6, 8)),
+        ("Z2*Z2*Z2", 3, vec![pw(&[1], 2), pw(&[2], 2), pw(&[3], 2)], t(6, 7)),
+        ("Z3*Z3", 2, vec![pw(&[1], 3), pw(&[2], 3)], t(7, 9)),
+        ("Z2*Z4", 2, vec![pw(&[1], 2), pw(&[2], 4)], t(7, 9)),
+        ("genus-2 surface", 4, vec![vec![1, 2, -1, -2, 3, 4, -3, -4]], t(3, 4)),
+        ("[4,3,4] (cubic reflections)", 4, vec![pw(&[1], 2), pw(&[2], 2), pw(&[3], 2), pw(&[4], 2), pw(&[1, 2], 4), pw(&[2, 3], 3), pw(&[3, 4], 4), pw(&[1, 3], 2), pw(&[1, 4], 2), pw(&[2, 4], 2)], t(4, 6)),
+        ("Z^2 x Z2", 3, vec![c(1, 2), c(1, 3), c(2, 3), pw(&[3], 2)], t(6, 8)),
+        ("Z x S3", 3, vec![pw(&[2], 2), pw(&[3], 2), pw(&[2, 3], 3), c(1, 2), c(1, 3)], t(6, 8)),
+    ]
+}
+
 fn k_for(ng: usize, tier: Tier) -> usize {
     match ng {
         0 | 1 => 8,
@@ -93,6 +187,15 @@ fn k_for(ng: usize, tier: Tier) -> usize {
 fn run(ctx: &mut Ctx) {
     let tier = ctx.tier;
     validate_class_counter();
+    validate_low_index_ref();
+    for (name, ng, rels, k) in deep_groups(tier) {
+        if ctx.take() {
+            check_deep(ctx, name, ng, &rels, k);
+        }
+    }
+    if ctx.nviolations() > 0 {
+        return;
+    }
     for g in infinite_groups().into_iter().chain(finite_groups().into_iter()) {
         if ctx.take() {
             check_case(ctx, "named", g.ng, &g.rels, k_for(g.ng, tier));
